@@ -268,14 +268,30 @@ def c07_compare(cw_before, tabs_before, cw_after, cols_before=None, cols_after=N
     for x in b:
         if x[3]:
             refs_b.setdefault(x[3], []).append(x[0])
-    if refs_a != refs_b:
+    def by_ref_node(cw):      # the word sequences of the Reference nodes, as a multiset (independent of the labelling)
+        g = {}
+        for w, _s, _d, ref, _t in cw:
+            if ref:
+                g.setdefault(ref, []).append(w)
+        return sorted(tuple(v) for v in g.values())
+
+    # two footnotes may begin with the same word (a link repeated verbatim): the first-word label then names both; what has
+    # to be kept is the multiset of footnote texts (equivalent to the labelled comparison when the labels are unique)
+    if refs_a != refs_b and by_ref_node(cw_before) != by_ref_node(cw_after):
         return ("reference", "the words of a reference changed: %r -> %r" % (sorted(refs_a.items())[:3], sorted(refs_b.items())[:3]))
     big = {t for t, (r, c) in tabs_before.items() if r >= 2 and c >= 2}
-    after_tbl = {}
+    # per word: every occurrence that was in such a table must still be in some table (a word may occur several times -
+    # a link repeated verbatim inside and outside a table -, so occurrences are counted; for unique words this is
+    # "the word is in no table afterwards")
+    in_tbl_after, in_big_before = {}, {}
     for w, _s, _d, _r, ta in cw_after:
-        after_tbl.setdefault(w, []).append(ta)
+        if ta != 0:
+            in_tbl_after[w] = in_tbl_after.get(w, 0) + 1
     for w, _s, _d, _r, tb in cw_before:
-        if tb in big and any(t == 0 for t in after_tbl.get(w, [])):
+        if tb in big:
+            in_big_before[w] = in_big_before.get(w, 0) + 1
+    for w, _s, _d, _r, tb in cw_before:
+        if tb in big and in_tbl_after.get(w, 0) < in_big_before[w]:
             return ("table-dissolved", "word %d was in a table with >=2 rows and >=2 columns and is in no table afterwards" % w)
     return None
 
